@@ -2,7 +2,7 @@
 
 from __future__ import annotations
 
-from ..rules import validation
+from ..rules import expressions, validation
 from .common import new_run
 
 LEVEL = "proof"
@@ -34,5 +34,6 @@ def check(model, tier):
     validation.r20_1_validation_first(ctx)
     validation.r20_2_inventory(ctx)
     validation.r20_3_who_may_bypass(ctx)
+    expressions.r13_4_required_columns(ctx, rule="R20.4")
     run.assume("no relation is mutated by a rejected call: follows from C09 (no in-place mutation anywhere)")
     return run
